@@ -46,7 +46,7 @@ void val_print(NanoValue v, FILE *out) {
             }
             break;
         case TAG_ENUM:
-            fprintf(out, "enum(%d)", v.as.enum_val);
+            fprintf(out, "%d", v.as.enum_val);
             break;
         case TAG_ARRAY:
             if (v.as.array) {
